@@ -70,7 +70,8 @@ class Harness(cm.BaseA):
         if config["set"] == "W4":
             return c01.SETS["W4"][2]("quick") + misc()
         f = c03.failing_W1() if config["set"] == "W1" else c03.failing_W3()
-        return c01.SETS[config["set"]][2]("quick") + f + misc() + trough_rows()
+        life = [["lifetime", ["A02", "B02", "B03"]], ["lifetime", ["B01", "A03"]]] if config["set"] == "W1" and not W.get("n") else []
+        return c01.SETS[config["set"]][2]("quick") + f + misc() + trough_rows() + life
 
     def canon(self, W, config):
         parts = []
@@ -81,7 +82,32 @@ class Harness(cm.BaseA):
                     parts += [c.encode(), lw.composition[c].tobytes()]
         return b"|".join(parts) + bytes([W["failed"]])
 
+    def step_lifetime(self, ev, config):
+        """a pair of worklists that outlives the labware it is used with (cm.lifetime_scenario)"""
+        wls = {"E": rt.EvoWorklist(max_volume=50, auto_split=config["auto_split"]), "F": rt.FluentWorklist(max_volume=50, auto_split=config["auto_split"])}
+
+        def check(recs, gs, gd):
+            if len(recs["E"]) != len(recs["F"]):
+                return "the two devices emitted a different number of records"
+            for a, b in zip(recs["E"], recs["F"]):
+                if self.rec_diff(a, b, {"S": gs, "D": gd}):
+                    return "records differ in more than the position field of trough records"
+            return None
+
+        res = {"outcome": "lifetime:ok", "violations": [], "expand": False}
+        try:
+            problem = cm.lifetime_scenario(wls, ev[1], check)
+        except Exception as e:
+            problem = f"raised {type(e).__name__}"
+        if problem:
+            res["violations"].append(("C16/records", f"one EvoWorklist and one FluentWorklist used with labware objects that were created and dropped one after the other: {problem}"))
+        res["nontrivial"] = repr(ev).encode()
+        return res
+
     def step(self, W, ev, config):
+        if ev[0] == "lifetime":
+            return self.step_lifetime(ev, config)
+        W["n"] = W.get("n", 0) + 1
         geos = cm.geos(config)
         pre = self.canon(W, config)
         oe, xe = exec_event(W["E"], ev)
